@@ -51,15 +51,22 @@ def _history(draw, gen: int, max_ops: int):
             i = r % len(ops)
             if ops[i][0] in ("ac_status", "zone_status", "timer_status", "version"):
                 ops.insert(min(len(ops), i + 1 + (r // 7) % 3), ops[i])
-    # error life-cycle stories on one AC (one history in three): status reports whose error code moves between 0 and two
+    # error life-cycle stories on one AC (one history in two): status reports whose error code moves between 0 and two
     # non-zero codes while the other attributes either stay or change, unsolicited error texts (also while no error is
     # reported), and the console answering / not answering the resulting requests
-    if draw(st.integers(0, 2)) == 0:
+    if draw(st.integers(0, 1)) == 0:
         n = draw(st.sampled_from([a["number"] for a in inst["acs"]]))
         base = [draw(con.ac_state_strategy(gen, n)), draw(con.ac_state_strategy(gen, n))]
         codes = draw(st.lists(st.sampled_from([0, 0, 0x0101, 0xFFFE]), min_size=3, max_size=8))
         etext = st.text(st.characters(min_codepoint=0x20, max_codepoint=0x7E), min_size=1, max_size=12)
         story = [["error_mode", draw(st.sampled_from(["text", "silent", "silent", "empty"])), {str(n): draw(etext)}]]
+        if draw(st.booleans()):
+            # "blip": a description arrives while no error is reported (the late answer to a request for an error that
+            # has already cleared), the no-error status changes, then an unrelated error appears and the console is slow
+            # to describe it
+            story += [["ac_status", [dict(base[0], error_code=0)]], ["error_info", n, draw(etext)],
+                      ["ac_status", [dict(base[1], error_code=0)]], ["error_mode", "silent", {}],
+                      ["ac_status", [dict(base[draw(st.integers(0, 1))], error_code=draw(st.sampled_from([0x0101, 0xFFFE])))]]]
         for c in codes:
             story.append(["ac_status", [dict(base[draw(st.integers(0, 1))], error_code=c)]])
             k = draw(st.integers(0, 3))
